@@ -290,14 +290,20 @@ func genDupSeq(r *Rand, tier string) []Input {
 	first.Tags = append(first.Tags, "dup-sequence")
 	rounds := []Input{first}
 	n := pick(r, 2, 2, 3)
+	at := int64(0) // deadline strategy: start of the next auction, ms since the start of the first (it returns at its cut-off)
 	for j := 1; j < n; j++ {
+		settle := 16*int64(r.Range(1, 3)) + 1
+		at += rounds[j-1].cutoff() + settle
 		nx := cloneInput(rounds[j-1])
 		nx.Before, nx.Late, nx.Settle = nil, nil, 0
+		stale := false
 		A := &nx.Relays[loc]
 		M := *A.Script[0].Bid
 		valid := eligibleIn(A, &M)
 		var step string
-		if valid {
+		if valid && nx.Strategy != "best" && at < 700 && r.Chance(1, 6) {
+			step = "stale:offered-again-for-a-slot-that-starts-in-the-next-second"
+		} else if valid {
 			step = pick(r, "relay-key-changed-bid-signed-with-the-former-key", "same-message-wrong-signature", "same-message-wrong-signature",
 				"forwarded-by-another-relay", "forwarded-by-another-relay", "offered-again", "minimum-raised-above-it")
 		} else {
@@ -346,6 +352,10 @@ func genDupSeq(r *Rand, tier string) []Input {
 			if A.Script[0].Bid == nil || A.Script[0].Bid.Value != M.Value {
 				loc = b
 			}
+		case "stale:offered-again-for-a-slot-that-starts-in-the-next-second":
+			// the very message of the earlier auction, properly signed: its timestamp is the earlier slot's
+			stale = true
+			A.Script[0].Bid.TsDelta = -1
 		case "now-properly-signed":
 			A.Script[0].Bid.Signer = effKey(A)
 		case "minimum-raised-above-it":
@@ -369,6 +379,10 @@ func genDupSeq(r *Rand, tier string) []Input {
 		}
 		if nx.Strategy != "best" {
 			nx.SlotStartIn = 16*int64(r.Range(int(m1), 16)) + 15 - nx.Deadline
+			if stale { // at + SlotStartIn in [1000, 2000): the slot starts one second later than the earlier one
+				mm := (1000-at+nx.Deadline-15)/16 + int64(r.Range(1, 6))
+				nx.SlotStartIn = 16*mm + 15 - nx.Deadline
+			}
 		}
 		switch k := r.Intn(100); {
 		case k < 40:
@@ -380,8 +394,11 @@ func genDupSeq(r *Rand, tier string) []Input {
 		}
 		nx.SlotOff, nx.Parent, nx.Proposer = pick(r, uint64(0), 0, 1), uint64(300+j), pick(r, uint64(0), 0, 2)
 		nx.Tags = []string{"dup-sequence", "dup-sequence:" + step, fmt.Sprintf("dup-sequence:auction-%d", j+1)}
-		rounds[j-1].Settle = 16*int64(r.Range(1, 3)) + 1
+		rounds[j-1].Settle = settle
 		rounds = append(rounds, nx)
+		if stale {
+			break
+		}
 	}
 	last := &rounds[len(rounds)-1]
 	if last.Mode != "strategy" {
